@@ -107,8 +107,15 @@ var properties = map[string]*Property{
 			CPU1:  true,
 			Quick:    Tier{Runs: 3000, BudgetS: 120},
 			Thorough: Tier{Runs: 150000, BudgetS: 1500},
+		}, {
+			Name: "mech-conc", Property: "C11", Pkg: "./internal/verifsim/mechsim", Test: "TestVerifC11Conc",
+			Dirs:     append([]string{"internal/verifsim/mechsim"}, exportDirs...),
+			Files:    []string{"zz_verif_c17_test.go", "zz_verif_c11conc_test.go"},
+			Race:     true,
+			Quick:    Tier{Runs: 1500, BudgetS: 100},
+			Thorough: Tier{Runs: 60000, BudgetS: 1200},
 		}},
-		Rule: "one case = one seeded mechanism configuration (2-4 endpoint headers and values, payload template, optional rule-level override on a second rule sharing the prototype) and a history of 3-10 requests each differing from an earlier one in at most one component (subject, captured value, rule/override, client header) or identical, executed in two worlds from the same choice list (real in-memory cache / no cache) against stateless parties that echo a digest of everything they received; plus 24 repetitions of one allowed request inside the ttl. Non-trivial = history with at least two different requests and at least one allowed; distinct = distinct (configuration, history).",
+		Rule: "one case = one seeded mechanism configuration (2-4 endpoint headers and values, payload template, optional rule-level override on a second rule sharing the prototype) and a history of 3-10 requests each differing from an earlier one in at most one component (subject, captured value, rule/override, client header) or identical, executed in two worlds from the same choice list (real in-memory cache / no cache) against stateless parties that echo a digest of everything they received; plus 24 repetitions of one allowed request inside the ttl. mech-conc: 2-4 callers with own subject, forwarded headers and credentials execute one mechanism instance (remote authorizer, contextualizer, generic / introspection authenticator, client credentials; cache on/off, ttl 0 or catalogue) as scheduler tasks overlapping at the remote calls; every observation is compared with the sequential cache-less evaluation of the same caller. Non-trivial = history with at least two different requests and at least one allowed; distinct = distinct (configuration, history).",
 		Real: []string{"config loader", "mechanism catalogue and rule-level WithConfig", "remote authorizer", "generic contextualizer", "generic / oauth2_introspection authenticators", "jwt / oauth2_client_credentials / header finalizers", "endpoint, templates, values, subject hashing", "memory.Cache", "rule factory, repository, executor, decision handler chain"},
 		Stub: []string{"remote parties (stateless digest-echoing simnet handlers)", "no-cache world uses heimdall's own noop cache"},
 		Assumptions: []string{
@@ -116,7 +123,7 @@ var properties = map[string]*Property{
 			"jti/iat/nbf/exp of issued tokens are normalised before comparing the worlds",
 			"map iteration order cannot be seeded in Go: effectiveness is decided by 24 repetitions per case (a two-entry map disagrees with probability 1-2^-24)",
 		},
-		MustBePositive: []string{"time-sim-c11/effectiveness-checks", "time-sim-c11/allowed:remote-authorizer", "time-sim-c11/allowed:contextualizer", "time-sim-c11/allowed:generic-authn", "time-sim-c11/allowed:introspection", "time-sim-c11/allowed:jwt-finalizer", "time-sim-c11/allowed:client-credentials"},
+		MustBePositive: []string{"time-sim-c11/effectiveness-checks", "time-sim-c11/allowed:remote-authorizer", "time-sim-c11/allowed:contextualizer", "time-sim-c11/allowed:generic-authn", "time-sim-c11/allowed:introspection", "time-sim-c11/allowed:jwt-finalizer", "time-sim-c11/allowed:client-credentials", "mech-conc/concurrent-evaluations"},
 	},
 	"C01": {
 		ID: "C01",
